@@ -7,6 +7,7 @@ cases:
       attribute in epoch / upstream_version / debian_revision / debian_version / full_version;
       value a string, or None (not for full_version, whose documented type is str).
 """
+import copy
 import itertools
 
 from hypothesis import strategies as st
@@ -188,7 +189,32 @@ def check_history(start, ops):
     check_decomposition(v, start, verdict, parts, "")
     labels = set(["kind:history"])
     rejected = accepted = 0
+    # Other version objects made from this one (Version(v), copy.copy, copy.deepcopy) are separate
+    # objects: whatever is assigned to ``v`` afterwards, they keep the state they were made with -
+    # and a step applied to such a sibling must leave ``v`` alone (every third step goes there).
+    siblings = [("Version(v)", Version(v)), ("copy.copy(v)", copy.copy(v)), ("copy.deepcopy(v)", copy.deepcopy(v))]
+    sib_state = [observe(s_) for _, s_ in siblings]
+    if any(st_[:6] != observe(v)[:6] for st_ in sib_state):
+        raise Violation("sibling-differs-at-birth", "Version(%r): %r vs %r" % (start, sib_state, observe(v)))
     for step, op in enumerate(ops):
+        if step % 3 == 2 and isinstance(op, list) and len(op) == 2 and op[0] in ATTRS and \
+                (op[1] is None or isinstance(op[1], str)) and not (op[0] == "full_version" and op[1] is None):
+            k = (step // 3) % len(siblings)
+            mine = observe(v)
+            try:
+                setattr(siblings[k][1], op[0], op[1])
+            except (ValueError, TypeError):
+                pass
+            sib_state[k] = observe(siblings[k][1])
+            if observe(v) != mine:
+                raise Violation("assignment-leaks-between-objects", "step %d: %s = %r on %s changed the "
+                                "original from %r to %r" % (step, op[0], op[1], siblings[k][0], mine, observe(v)))
+            labels.add("step-on-a-sibling-object")
+            continue
+        for (nm, s_), st_ in zip(siblings, sib_state):
+            if observe(s_) != st_:
+                raise Violation("assignment-leaks-between-objects", "before step %d: %s went from %r to %r "
+                                "although only the original was assigned to" % (step, nm, st_, observe(s_)))
         if not (isinstance(op, list) and len(op) == 2 and op[0] in ATTRS):
             continue
         attr, value = op
@@ -257,6 +283,10 @@ def check_history(start, ops):
         if vd == UNSPECIFIED:
             labels.add("unspecified-target-accepted")
         check_decomposition(v, t, vd, pp, "assign-")
+    for (nm, s_), st_ in zip(siblings, sib_state):
+        if observe(s_) != st_:
+            raise Violation("assignment-leaks-between-objects", "at the end: %s went from %r to %r "
+                            "although only the original was assigned to" % (nm, st_, observe(s_)))
     labels.add("rejections:%d" % min(rejected, 3))
     if rejected and accepted:
         labels.add("mixed-accept-reject")
